@@ -5,7 +5,7 @@ import extract, vrun
 repo = os.environ.get('REPO', '/repo')
 vc = sys.argv[1]
 funcs = sys.argv[2:] or None
-rs, meta = extract.build_unit(repo, vc, '/verif/build')
+rs, meta = extract.build_unit(repo, vc, os.path.join(os.environ.get('VERIF_OUT', '/verif'), 'build'))
 for w in meta['warnings']: print('warning:', w)
 run = vrun.run_verus(rs, funcs=funcs if funcs and len(funcs)==1 else None, module=meta.get('module'))
 res = vrun.parse(run, meta)
